@@ -15,6 +15,7 @@ CACHE = os.path.join(BUILD, "cache")
 VERIF_MSG = [
     (re.compile(r"^postcondition not satisfied"), "post"),
     (re.compile(r"^precondition not satisfied"), "pre"),
+    (re.compile(r"^precondition not met"), "pre"),
     (re.compile(r"^possible arithmetic (underflow|overflow)"), "safety"),
     (re.compile(r"^possible (division by zero|bit shift underflow/overflow)"), "safety"),
     (re.compile(r"^assertion failed"), "assert"),
